@@ -505,6 +505,55 @@ func c08(c *Ctx) {
 		}
 	}
 
+	// (3b) source-literal dictionary: every pair of "magic" constants that occur in the anchored source files
+	// (as the tree under check has them NOW), at every pair of adjacent byte positions of the fixed part of the
+	// three carriers, the 0x0801 format byte running over the same constants - a comparison of input bytes
+	// against constants is reached whatever the constants are
+	lits := SourceLiterals("protocol/model/t_0x0200.go", "protocol/model/t_0x0200_location_item.go",
+		"protocol/model/t_0x0200_addition.go", "protocol/model/t_0x0704.go", "protocol/model/t_0x0801.go")
+	magic := []byte{0, 1, 0xFF}
+	for _, v := range lits {
+		if v >= 32 && v <= 255 {
+			magic = append(magic, byte(v))
+		}
+	}
+	if quick && len(magic) > 24 {
+		magic = magic[:24]
+	}
+	c.Count(fmt.Sprintf("dictionary-size:%d", len(magic)))
+	for p := 0; p+1 < 36; p++ {
+		for _, a := range magic {
+			for _, b := range magic {
+				for _, f := range magic {
+					if quick && f > 2 && p != 8 && rng.Intn(4) != 0 { // quick: thin out the format byte away from the block start
+						continue
+					}
+					b8 := make([]byte, 8)
+					rng.Read(b8)
+					blk := randBlock()
+					body8 := append(append([]byte{}, b8...), blk...)
+					body8[5] = f
+					body8[p], body8[p+1] = a, b
+					pkg := randContent(rng.Intn(4))
+					body8 = append(body8, pkg...)
+					exp8 := fmt.Sprintf("ok id=%d type=%d fmt=%d event=%d chan=%d %s pkg=%s", binary.BigEndian.Uint32(body8), body8[4], body8[5], body8[6], body8[7],
+						stdLocDump(body8[8:36]), Hx(pkg))
+					ans8 := c.Do("p0801 "+Hx(body8), true)
+					if mask(ans8) != mask(exp8) {
+						c.Violate(Violation{Signature: "C08/carrier-0801-dictionary", What: "T0x0801.Parse differs from the standard's reading of bytes 8..36",
+							Input: "p0801 " + Hx(body8), Observed: ans8, Required: exp8})
+					}
+				}
+				if p+1 < 28 {
+					blk := randBlock()
+					blk[p], blk[p+1] = a, b
+					check0200("dictionary", blk, nil)
+				}
+			}
+		}
+	}
+	c.Count("dictionary")
+
 	// (4) thorough only: many more alarm / status words through the real parse, direct oracle only
 	if !quick {
 		t := &model.T0x0200LocationItem{}
